@@ -1,11 +1,52 @@
 use crate::core::Property;
 
+pub mod c02;
 pub mod c18;
 
 pub fn all() -> Vec<Box<dyn Property>> {
     vec![
+        Box::new(c02::C02),
         Box::new(c18::C18),
     ]
 }
 
-pub fn probe(_args: &[String]) {}
+pub fn probe(args: &[String]) {
+    use crate::core::Tape; use crate::gen::*;
+    crate::api::init();
+    let what = args.first().map(|s| s.as_str()).unwrap_or("rules");
+    let n: usize = args.get(1).and_then(|s| s.parse().ok()).unwrap_or(20);
+    let mut x: u64 = args.get(2).and_then(|s| s.parse().ok()).unwrap_or(12345);
+    for _ in 0..n {
+        let tape: Vec<u32> = (0..400).map(|_| { x ^= x << 13; x ^= x >> 7; x ^= x << 17; (x >> 16) as u32 }).collect();
+        let mut t = Tape::new(&tape);
+        match what {
+            "rules" => { let c = c02::gen_structured_case(&mut t, RuleProfile::FULL); println!("{} || {}  => {:?}", c["groups"], c["words"], crate::core::Property::check(&c02::C02, &c)); }
+            "mut" => { let c = c02::gen_mutated_case(&mut t); println!("{} || {}", c["groups"], c["words"]); }
+            "noise" => { let c = c02::gen_noise_case(&mut t); println!("{}", c); }
+            _ => {}
+        }
+    }
+    if what == "bt" {
+        std::panic::set_hook(Box::new(|_| { println!("{}", std::backtrace::Backtrace::force_capture()); }));
+        let _ = std::panic::catch_unwind(|| asca::run(&[asca::RuleGroup::from_rules(vec!["<... C ə>=1 > [tone:0]".into()])], &["ˈkɡə".to_string()], &[], &[]));
+    }
+    if what == "survey" {
+        // survey <source> <n>: histogram of failure signatures with the shortest example of each (no shrinking)
+        let src = args.get(1).map(|s| s.as_str()).unwrap_or("structured");
+        let n: usize = args.get(2).and_then(|s| s.parse().ok()).unwrap_or(20000);
+        let mut hist: std::collections::BTreeMap<String, (u64, String)> = Default::default();
+        let mut fired = 0; let mut ok = 0;
+        for _ in 0..n {
+            let tape: Vec<u32> = (0..400).map(|_| { x ^= x << 13; x ^= x >> 7; x ^= x << 17; (x >> 16) as u32 }).collect();
+            let mut t = Tape::new(&tape);
+            let c = match src { "mut" => c02::gen_mutated_case(&mut t), "noise" => c02::gen_noise_case(&mut t), "safe" => c02::gen_structured_case(&mut t, c02::SAFE), _ => c02::gen_structured_case(&mut t, RuleProfile::FULL) };
+            match crate::core::Property::check(&c02::C02, &c) {
+                crate::core::Outcome::Fail { signature, .. } => { let ex = format!("{} || {}", c["groups"], c["words"]); let e = hist.entry(signature).or_insert((0, ex.clone())); e.0 += 1; if ex.len() < e.1.len() { e.1 = ex; } }
+                crate::core::Outcome::Pass { nontrivial, class } => { if nontrivial.is_some() { fired += 1 } if class.iter().any(|c| c == "ok") { ok += 1 } }
+                _ => {}
+            }
+        }
+        println!("n={n} ok={ok} fired={fired}");
+        for (k, (c, ex)) in &hist { println!("{c:6}  {k}\n        {ex}"); }
+    }
+}
